@@ -236,6 +236,11 @@ def replay_case(ctx, prop, case):
     """re-execute one distinguishing input on the real code; returns the record that was written to ctx"""
     info = case["gen_tie"]
     name, inp = info["function"], info["input"]
+    from . import translate
+    translate.load_ext()
+    for _m in translate.EXT_MODULES:
+        for _k, _v in getattr(_m, "REAL", {}).items():
+            REAL.setdefault(_k, _v)
     rec = dict(function=name, input=inp, generated=info.get("generated"), model=info.get("model"))
     if name not in REAL:
         rec["real"] = "no real-code replay for this function (its input is a partial state / an effect list)"
